@@ -241,7 +241,16 @@ func behaviour() string {
 
 // ---- running one history through goom's public API
 
-type hist struct{ b []*mocker.Builder }
+type hist struct {
+	b       []*mocker.Builder
+	handles map[string]*handle
+}
+
+// handle is a mocker the user keeps in a variable: un is what ExportFunc / ExportMethod returned (nil for Func / Method)
+type handle struct {
+	exp mocker.ExportedMocker
+	un  mocker.UnExportedMocker
+}
 
 func atoi(s string) int {
 	v, err := strconv.Atoi(s)
@@ -262,6 +271,22 @@ func (h *hist) exported(b *mocker.Builder, via string, t *target) mocker.Exporte
 		return b.ExportFunc(t.name).As(t.fn)
 	case "u":
 		return b.Struct(&T{}).ExportMethod(t.method).As(t.fn)
+	case "v":
+		return b.Func(methodValue(t))
+	}
+	panic("bad-op")
+}
+
+// methodValue is `recv.M` (a method value): goom sees the `-fm` wrapper and patches the method by name
+func methodValue(t *target) interface{} {
+	recv := &T{A: 1}
+	switch t.method {
+	case "M7":
+		return recv.M7
+	case "M8":
+		return recv.M8
+	case "m9":
+		return recv.m9
 	}
 	panic("bad-op")
 }
@@ -282,8 +307,8 @@ func (h *hist) step(toks []string) {
 		b.Reset()
 		return
 	}
-	want := map[string]int{"a": 5, "r": 5, "w": 5, "c": 4}[toks[0]]
-	if want == 0 || len(toks) < want || len(toks) > want+1 || (toks[0] == "c" && len(toks) != 4) {
+	want := map[string]int{"a": 5, "r": 5, "w": 5, "c": 4, "k": 4, "A": 5, "R": 5, "C": 4}[toks[0]]
+	if want == 0 || len(toks) < want || len(toks) > want+1 || (strings.Contains("ckARC", toks[0]) && len(toks) != want) {
 		panic("bad-op")
 	}
 	ti := atoi(toks[3])
@@ -291,17 +316,17 @@ func (h *hist) step(toks []string) {
 		panic("bad-op")
 	}
 	via, t := toks[2], targets[ti]
-	if !strings.Contains("femu", via) || len(via) != 1 {
+	if !strings.Contains("femuv", via) || len(via) != 1 {
 		panic("bad-op")
 	}
 	if toks[0] == "w" && ((t.method != "" && via != "m") || ti == 5) { // generic shape bodies take a dictionary first: argument matching on them is C01's subject
 		panic("bad-op") // When(arg) on a method needs the Struct(..).Method mocker (receiver handling)
 	}
-	if toks[0] == "a" && (atoi(toks[4]) < 0 || atoi(toks[4]) >= len(cbF)) {
+	if (toks[0] == "a" || toks[0] == "A") && (atoi(toks[4]) < 0 || atoi(toks[4]) >= len(cbF)) {
 		panic("bad-op")
 	}
 	isMeth := t.method != ""
-	if (via == "m" || via == "u") && !isMeth {
+	if (via == "m" || via == "u" || via == "v") && !isMeth {
 		panic("bad-op")
 	}
 	var origin interface{}
@@ -320,6 +345,54 @@ func (h *hist) step(toks []string) {
 		}
 		origin = p.ptr
 	}
+	hkey := toks[1] + "/" + via + "/" + toks[3]
+	switch toks[0] {
+	case "k":
+		hd := &handle{}
+		switch via {
+		case "e":
+			hd.un = b.ExportFunc(t.name)
+		case "u":
+			hd.un = b.Struct(&T{}).ExportMethod(t.method)
+		default:
+			hd.exp = h.exported(b, via, t)
+		}
+		if h.handles == nil {
+			h.handles = map[string]*handle{}
+		}
+		h.handles[hkey] = hd
+		return
+	case "A", "R", "C":
+		hd := h.handles[hkey]
+		if hd == nil {
+			panic("bad-op")
+		}
+		switch toks[0] {
+		case "A":
+			cb := cbF[atoi(toks[4])]
+			if isMeth {
+				cb = cbM[atoi(toks[4])]
+			}
+			if hd.un != nil {
+				hd.un.Apply(cb)
+			} else {
+				hd.exp.Apply(cb)
+			}
+		case "R":
+			if hd.un != nil {
+				hd.un.As(t.fn).Return(200000 + atoi(toks[4]))
+			} else {
+				hd.exp.Return(200000 + atoi(toks[4]))
+			}
+		case "C":
+			if hd.un != nil {
+				hd.un.Cancel()
+			} else {
+				hd.exp.Cancel()
+			}
+		}
+		return
+	}
 	switch toks[0] {
 	case "a":
 		cb := cbF[atoi(toks[4])]
@@ -327,7 +400,7 @@ func (h *hist) step(toks []string) {
 			cb = cbM[atoi(toks[4])]
 		}
 		switch via {
-		case "f", "m":
+		case "f", "m", "v":
 			m := h.exported(b, via, t)
 			if origin != nil {
 				m = m.Origin(origin)
@@ -363,7 +436,7 @@ func (h *hist) step(toks []string) {
 		}
 	case "c":
 		switch via {
-		case "f", "m":
+		case "f", "m", "v":
 			h.exported(b, via, t).Cancel()
 		case "e":
 			b.ExportFunc(t.name).Cancel()
